@@ -17,3 +17,9 @@ func verifLoopTop(ctx context.Context, ast types.MalType, env types.EnvType) {
 		h(ctx, ast, env)
 	}
 }
+
+// VerifStepperFlags exposes the stepper's process-wide flags to a verification harness.
+func VerifStepperFlags() (skipFlag, outing1Flag, outing2Flag bool) { return skip, outing1, outing2 }
+
+// VerifResetStepper puts the stepper's process-wide flags back to their initial state.
+func VerifResetStepper() { skip, outing1, outing2 = false, false, false }
